@@ -5,10 +5,12 @@ namespace PW.Props.Tables
 open PW
 
 theorem hardcoded_einsum_as_expected : Generated.hardcodedEinsum = TablesSpec.expectedHardcoded := by decide
+theorem hardcoded_plans_as_expected : Generated.hardcodedPlans = TablesSpec.expectedPlans := by rfl
 theorem gate_tables_as_expected : Generated.gateTables = TablesSpec.expectedGates := by decide
 theorem op_table_as_expected : Generated.opTable = TablesSpec.expectedOps := by rfl
 
 end PW.Props.Tables
 #print axioms PW.Props.Tables.hardcoded_einsum_as_expected
+#print axioms PW.Props.Tables.hardcoded_plans_as_expected
 #print axioms PW.Props.Tables.gate_tables_as_expected
 #print axioms PW.Props.Tables.op_table_as_expected
